@@ -253,6 +253,17 @@ def replay_ops(path, name, exprs):
 def confirm(replay, verbose=False):
     mc = mcx.Mc()
     try:
+        if replay.get("kind") == "corpus":
+            old_mc = mcx._worker_mc
+            mcx._worker_mc = mc
+            try:
+                v, _, _ = work_corpus((replay["config"], replay["prefs"], [(replay["label"], terms.parse_xml(replay["doc"]).kids[0])]))
+            finally:
+                mcx._worker_mc = old_mc
+            if verbose:
+                for k, w, _ in v:
+                    print(" ", k, "—", w)
+            return {k for k, _, _ in v}
         prefs = replay["prefs"]
         exprs = prepare_expressions(mc, prefs)
         ei = replay["expr"]
@@ -278,6 +289,65 @@ def confirm(replay, verbose=False):
         return keys
     finally:
         mc.close()
+
+
+# ---------------------------------------------------------------------------------------------
+# expression breadth: one fixed walk (moves, reads, marks, undo, toggles) over a corpus of terms, the same invariants on every step.
+# The BFS above explores "every sequence" on a handful of expressions; this family covers "every expression" with one sequence.
+
+WALK = ["ZoomIn", "SetPlacemarker0", "MoveNext", "MoveNext", "ReadCurrent", "MoveLastLocation", "MoveTo0", "ZoomInAll", "MovePrevious", "DescribeCurrent", "SetPlacemarker1", "ZoomOut",
+        "MoveEnd", "WhereAmI", "MoveStart", "MoveTo1", "MoveCellNext", "MoveLastLocation", "ZoomOutAll", "ToggleZoomLockDown", "MoveNext", "ToggleSpeakMode", "MovePrevious", "MoveLineEnd",
+        "ZoomIn", "ZoomIn", "MoveCellDown", "MoveLastLocation", "MoveTo3", "ReadNext", "MoveColumnStart", "MoveLastLocation"]
+OBS = [["navstate"], ["navid"], ["navmml"], ["getpref", "NavMode"], ["getpref", "Overview"]]
+
+
+def corpus_terms(tier):
+    import canon_run
+    corp = []
+    for sh in terms.spine_shapes(1 if tier == "quick" else 2):
+        corp.append((terms.shape_name(sh), terms.build(sh, terms.Filler("mixed"))))
+    for name, t in canon_run.special_terms():
+        corp.append(("special:" + name, t))
+    keep = ("none", "mprescripts", "empty-mrow", "empty-mi", "delete", "mspace", "mphantom", "ins-emptybase-sup", "wrap-mrow", "wrap-mstyle")
+    for label, t in [c for c in corp if "[" not in c[0]]:
+        for dl, dt in terms.deviations(t):
+            if dl.split("@")[0] in keep and (tier == "thorough" or not label.startswith("special:")):
+                corp.append((label + "|" + dl, dt))
+    return corp
+
+
+def work_corpus(item):
+    cname, prefs, cases = item
+    mc = mcx.worker_mc()
+    setup = [["rules_dir", mcx.RULES]] + prefs
+    ops = [[["mathml", terms.doc(t)], ["navstate"], ["navid"], ["getpref", "NavMode"], ["getpref", "Overview"]] + [op for c in WALK for op in [["nav", c]] + OBS] for _, t in cases]
+    _, res = mc.run_cases(setup, ops)
+    viol, counts, outcomes = [], {"corpus_walks": 0, "corpus_transitions": 0, "skipped_panics": 0}, set()
+    for (label, t), r in zip(cases, res):
+        if not is_ok(r[0]) or not is_ok(r[1]) or not is_ok(r[2]):
+            continue
+        counts["corpus_walks"] += 1
+        ids = set(re.findall(r"\sid='([^']*)'", val(r[0])))
+        exprs = [(terms.doc(t), ids, val(r[2])[0], val(r[1]))]
+        pre = (val(r[1]), val(r[3]), val(r[4]))
+        done = []
+        for i, c in enumerate(WALK):
+            sl = r[5 + 6 * i: 5 + 6 * (i + 1)]
+            if len(sl) < 6:
+                break
+            v, post, _ = check_transition(0, pre, ("nav", c), sl, exprs)
+            if v and v[0][0] == "__panic__":
+                counts["skipped_panics"] += 1
+                break
+            counts["corpus_transitions"] += 1
+            done.append(c)
+            outcomes.add(hash((c, json.dumps(norm_ids(sl[0][:2]), ensure_ascii=False))))
+            for k, w in v:
+                viol.append((k, f"[{cname}] {label}: after [{', '.join(done)}]: {w}", {"kind": "corpus", "config": cname, "prefs": prefs, "label": label, "doc": terms.doc(t)}))
+            if post is None:
+                break
+            pre = post
+    return viol, counts, outcomes
 
 
 CONFIGS = [
@@ -327,6 +397,17 @@ def main(tier):
         per.append({"config": cname, "start_expressions": starts, "alphabet": "full(%d)" % len(FULL) if alphabet is FULL else "core(%d)" % len(CORE),
                     "depth": depth, "transitions": stats["transitions"] - before["transitions"], "states": stats["states"] - before["states"]})
     mc.close()
+    corp = corpus_terms(tier)
+    run.count("corpus_terms", len(corp))
+    cjobs = []
+    for cname in (("Enhanced", "Simple", "Character") if tier == "quick" else [c for c, _ in CONFIGS]):
+        for i in range(0, len(corp), 40):
+            cjobs.append((cname, base + cfg[cname], corp[i:i + 40]))
+    for viol, counts, outcomes in mcx.pmap(work_corpus, cjobs):
+        run.merge_violations(viol)
+        run.merge_counts(counts)
+        stats["transitions"] += counts["corpus_transitions"]
+        stats["outcomes"] |= outcomes
     run.counters["evaluations"] = stats["transitions"]
     run.counters["skipped_panics"] = stats["skipped_panics"]
     for o in stats["outcomes"]:
@@ -337,7 +418,8 @@ def main(tier):
         rule="breadth-first search over the real navigation transition function with exact state hashing (complete NavigationState through the hook, expression index, "
              "rare-transition count); alphabet full = 36 navigation commands + set_mathml(other/same) + set_navigation_node(4 positions, unknown id), core = 9 commands + the same extras; "
              "rare transitions (place markers, toggles, set_mathml, set_navigation_node) at most twice per path; per run: " + json.dumps(per) +
-             ". distinct_nontrivial = distinct command results observed",
+             "; expression breadth: one fixed walk of %d commands (moves, reads, marks, undo, toggles) over %d terms (spine terms, trigger terms, deviations with missing/empty parts) "
+             "in %s, the same invariants after every step. distinct_nontrivial = distinct command results observed" % (len(WALK), len(corp), "3 navigation modes" if tier == "quick" else "all 6 configurations"),
         coverage_extra={"states": stats["states"], "transitions": stats["transitions"], "traces_validated_against_impl": stats["traces"],
                         "frontier_sizes": stats["levels"], "runs": per},
         assumptions=["the hook's restore is validated against replay through the public API for every state of the first levels (a disagreement aborts the run as a machinery error)",
